@@ -129,8 +129,12 @@ def lemmas(ctx):
 
 
 GROUPS = [guard(post), guard(lemmas)]
-SHARED = [("C02", "add_post", ["C02.add.n", "C02.add.sum_px", "C02.add.t"])]
-REPLAY = [("C08", "ls_repro.py", "score", {})]
+SHARED = [("C02", "add_post", ["C02.add.n", "C02.add.sum_px", "C02.add.t"]),
+          # "for all UBMs": the UBM is in a state its public mutators can produce -- each of them re-establishes the machine invariant
+          # (variances >= floors, caches coherent with the visible parameters) that C08.post assumes of the UBM it is given
+          ("C17", "set_variances", ["C17.set.variances"]), ("C17", "set_thresholds", ["C17.set.thresholds"]), ("C17", "set_means", ["C17.set.means"]),
+          ("C17", "init_inv", ["C17.init"])]
+REPLAY = [("C08", "ls_repro.py", "score", {}), ("C17", "ls_repro.py", "score", {})]
 TRUSTED = ["np.tensordot(a, b, 2), np.transpose, np.where, broadcasting as in the NumPy model",
            "the derivative characterisation (score == d/de of the UBM log-likelihood of the test data along ubm + e (model - ubm) at e = 0) "
            "follows from C08.post and C02.estep by the chain rule for LSE; the calculus step itself is not machine-checked"]
